@@ -127,7 +127,7 @@ def regime_report(A, lb, ub, K, baseline, B=None):
 
 
 def make_system(rng, m=None, n=None, kkind=None, basekind=None, lbkind=None, ubkind="finite",
-                nonneg=True, mrange=(1, 5), nrange=(1, 8), under=None, max_tries=200, ub_wide=False, sparse=False):
+                nonneg=True, mrange=(1, 5), nrange=(1, 8), under=None, max_tries=200, ub_wide=False, sparse=None):
     """A linear system in the well-scaled regime (by construction + rejection).
     under: None (any), True (n>m), False (n<=m)."""
     for _ in range(max_tries):
@@ -150,7 +150,7 @@ def make_system(rng, m=None, n=None, kkind=None, basekind=None, lbkind=None, ubk
         wid = rng.uniform(0.15, 0.6)
         A = np.exp(-0.5 * ((pr[:, None] - ps[None, :]) / wid) ** 2) + rng.uniform(0.01, 0.1, (m_, n_))
         A *= rng.uniform(0.6, 1.4, (m_, n_))
-        if sparse and m_ >= 2:
+        if (sparse if sparse is not None else rng.random() < 0.15) and m_ >= 2:
             # exact zeros: some sources do not excite some receptors at all (every row and column keeps an entry)
             Z0 = rng.random((m_, n_)) < 0.3
             Z0[rng.integers(m_, size=n_), np.arange(n_)] = False
@@ -320,3 +320,28 @@ def reregister(rng, est, s, op=None, matrix_ok=True):
         est.register_background_adaptation(bg.copy())
         t["K"], t["kkind"] = 1.0 / (bg[1:m + 1] + base), "vector"
     return op, t
+
+
+def live_or_new(c, dreye, inp, **kw):
+    """The estimator a check should query: an estimator with a history when the workload provides one
+    (re-registration clauses set inp['_live_estimator']), else a fresh one built from the system dict."""
+    est = inp.get("_live_estimator")
+    if est is not None:
+        return est
+    return c.call(make_estimator, dreye, inp, _where="ReceptorEstimator+register_system", **kw)
+
+
+def rereg_check(c, dreye, inp, first_query, check, matrix_ok=True):
+    """Generic stale-state workload: build an estimator from `inp`, run `first_query(est)`, apply one registration call
+    (seeded by inp['rereg_seed']), then run `check(new_inp, c)` against the SAME estimator with the new registered values."""
+    est = c.call(make_estimator, dreye, inp, _where="ReceptorEstimator+register_system")
+    c.try_call(first_query, est)
+    rr = np.random.default_rng(int(inp["rereg_seed"]))
+    ok, res = c.try_call(reregister, rr, est, inp, None, matrix_ok)
+    if not ok:
+        c.fail(f"registration call raised {type(res).__name__}: {str(res)[:100]}", mechanism="rereg-raised")
+    op, t = res
+    c.cell("rereg=" + op)
+    t = dict(t)
+    t["_live_estimator"] = est
+    return check(t, c)
